@@ -1,6 +1,6 @@
 /- Line-protocol driver for properties / reason codes / VBI / subscribe options (C17). -/
 import Paho.Driver.Common
-import Paho.Driver.Pure
+import Paho.Driver.Validate
 import Paho.Model.Props
 namespace Paho.Driver
 open Paho
